@@ -692,8 +692,20 @@ func (link *LinkBase) handleSetup(mgr *mgr.Manager) (*LinkBase, error) {
 	return link, nil
 }
 
+// setupTimeout is the time a remote has to complete the link setup.
+const setupTimeout = 30 * time.Second
+
 func (link *LinkBase) handleSetupMessages(client bool) (*peeringRequestState, error) {
 	builder := link.peering.instance.FrameBuilder()
+
+	// Limit the time for the setup, so that a remote that stays silent cannot
+	// hold up the worker forever.
+	if err := link.conn.SetDeadline(time.Now().Add(setupTimeout)); err != nil {
+		return nil, fmt.Errorf("set setup deadline: %w", err)
+	}
+	defer func() {
+		_ = link.conn.SetDeadline(time.Time{})
+	}()
 
 	// Initialize connection.
 	state, f, err := link.peering.createPeeringRequest(client)
